@@ -218,6 +218,20 @@ pub fn catalogue() -> Vec<(String, Vec<MLayer>)> {
 			(0..9u32).map(|i| feat(Some(70 + i as u64), &[0, i, 1, 9], 1, point(i as i32, 3))).chain([feat(Some(80), &[1, 9], 1, point(9, 3))]).collect(),
 		)],
 	));
+	// many float / double values among which NaNs with different payloads and both zeros stand: the value table
+	// is rebuilt (and sorted) by the stage
+	{
+		let mut values: Vec<(Enc, MVal)> = vec![s("x1"), s("x2")];
+		for i in 0..24u32 {
+			values.push((Enc::Float, MVal::F32(if i % 3 == 0 { 0x7fc0_0000 + i } else if i % 3 == 1 { (i as f32 * 1.5 - 9.0).to_bits() } else { 0xffc0_0000 + i })));
+			values.push((Enc::Double, MVal::F64(if i % 2 == 0 { 0x7ff8_0000_0000_0000 + i as u64 } else { (i as f64 - 7.25).to_bits() })));
+		}
+		values.push((Enc::Float, MVal::F32(0.0f32.to_bits())));
+		values.push((Enc::Float, MVal::F32((-0.0f32).to_bits())));
+		let n = values.len() as u32;
+		let feats: Vec<_> = (2..n).map(|i| feat(Some(100 + i as u64), &[0, i % 2, 1, i], 1, point(i as i32, 5))).collect();
+		v.push(("layer a, 50 float / double values incl. NaNs of different payloads and both zeros".into(), vec![layer("a", &["id", "f"], values, feats)]));
+	}
 	// exhaustively: all key tables of length <= 3 over {id, k}, every feature referencing each key position once
 	let names = ["id", "k"];
 	for len in 1..=3usize {
